@@ -282,4 +282,15 @@ def r4(ctx):
     ctx.check(ok, "C08.R4", "C().encoder removes rows on the Series (dtype preserving)", enc.where, ctx.construct(enc, text="dtype preserving"), "C().encoder changed shape")
 
 
-RULES = [("C08.R1", r1), ("C08.R2", r2), ("C08.R3", r3), ("C08.R4", r4)]
+def r5(ctx):
+    """levels are discovered from the data being encoded, never inherited from an earlier call: the working spec owns its encoder state (= C18.R1)."""
+    from . import c18
+    saved = ctx.obligations
+    ctx.obligations = []
+    c18.r1(ctx)
+    for o in ctx.obligations:
+        o.rule = "C08.R5"
+    ctx.obligations = saved + ctx.obligations
+
+
+RULES = [("C08.R1", r1), ("C08.R2", r2), ("C08.R3", r3), ("C08.R4", r4), ("C08.R5", r5)]
